@@ -378,13 +378,24 @@ impl Executor {
         self.trim();
         let t0 = std::time::Instant::now();
         let mut rec = Record { idx: spec.idx, group: spec.group.clone(), status: "ran".into(), ..Default::default() };
-        let r = match spec.op {
+        // a panic on the builder thread (input builders, instruments) is not
+        // a verdict about the operation under test: the run is excluded and
+        // counted. Panics of the operation itself are caught on the run thread.
+        let r = std::panic::catch_unwind(std::panic::AssertUnwindSafe(|| match spec.op {
             Op::IsEuclidean => self.run_c17(spec, &mut rec),
             _ => self.run_c16(spec, &mut rec),
-        };
-        if let Err(reason) = r {
-            rec.status = "excluded".into();
-            rec.excluded_reason = reason;
+        }));
+        match r {
+            Ok(Ok(())) => {}
+            Ok(Err(reason)) => {
+                rec.status = "excluded".into();
+                rec.excluded_reason = reason;
+            }
+            Err(_) => {
+                rec.status = "excluded".into();
+                rec.excluded_reason = "builder_or_instrument_panic".into();
+                rec.failures.clear();
+            }
         }
         rec.micros = t0.elapsed().as_micros() as u64;
         rec
